@@ -186,6 +186,43 @@ func c02(c *Ctx) {
 		return callTo("embedded/ahtree.(*AHtree).ResetSize")(in) && fnInPkgs(in.Parent(), pk)
 	}, []string{storePkg + "OpenWith", storeT + "performPrecommit", storeT + "DiscardPrecommittedTxsSince"}, 3)
 
+	// ---- C02.6 frontier pairs move together ------------------------------------------------------------------------
+	// (txID, alh) of the precommit frontier and of the commit frontier denote one position of the hash chain: whoever
+	// moves the id moves the hash, on every path, before the function returns; the next tx takes PrevAlh from the hash
+	rp := "C02.6/frontier-pair-moves-together"
+	np := 0
+	for _, pair := range [][2]string{{"ImmuStore.inmemPrecommittedTxID", "ImmuStore.inmemPrecommittedAlh"}, {"ImmuStore.committedTxID", "ImmuStore.committedAlh"}} {
+		for _, f := range c.allFns {
+			if !fnInPkgs(f, []string{"embedded/store"}) || len(f.Blocks) == 0 {
+				continue
+			}
+			ids := sites(f, storeTo(pair[0]))
+			for i, in := range ids {
+				if isFreshAlloc(storeBase(in)) {
+					continue // constructor
+				}
+				np++
+				in := in
+				// the hash is stored after the id on every path to an exit, or right before it in the same block
+				before := false
+				for _, x := range in.Block().Instrs {
+					if x == in {
+						break
+					}
+					if storeTo(pair[1])(x) {
+						before = true
+					}
+				}
+				q := &pathQ{fn: f, from: []ssa.Instruction{in}, to: isReturn, via: storeTo(pair[1])}
+				w := q.bypass()
+				c.check(before || w == nil, rp, fmt.Sprintf("%s:%s#%d", fnName(f), lastSeg(pair[0]), i), c.pos(in.Pos()), lastSeg(pair[1])+" is stored together with "+lastSeg(pair[0]),
+					fmt.Sprintf("%s is moved without %s: the frontier id and its accumulated hash denote different transactions (the next tx is chained to the wrong hash): %s", lastSeg(pair[0]), lastSeg(pair[1]), c.witnessStr(w)))
+			}
+		}
+	}
+	if np < 5 {
+		c.undecided(rp, "floor", fmt.Sprintf("%d stores of a frontier id found (7 confirmed by hand)", np))
+	}
 	c02TxReaderChain(c, "C02.5/txreader-chain")
 	// db.CurrentState reports the committed pair
 	if f := c.fn("pkg/database.(*db).CurrentState"); f != nil {
@@ -384,4 +421,14 @@ func c02TxReaderChain(c *Ctx, r string) {
 		}
 	}
 
+}
+
+// storeBase: the object whose field a store instruction writes
+func storeBase(in ssa.Instruction) ssa.Value {
+	st, ok := in.(*ssa.Store)
+	if !ok {
+		return nil
+	}
+	_, base := fieldOf(st.Addr)
+	return base
 }
